@@ -104,22 +104,32 @@ class NFA:
         return g
 
 
-def build(body: Body, alpha: Alphabet):
-    n = NFA(body.name)
-    n.entry = (0, 0)
+def build(body: Body, alpha: Alphabet, fx=None, depth=0, _prefix=(), _sinks=None, _stack=(), _into=None):
+    """Event automaton of `body`. With `fx` and depth > 0, unlabelled calls to crate-local functions and unlabelled
+    awaits of crate-local coroutines whose own automaton contains call/done events are inlined (bounded depth, no
+    recursion): extracting a helper out of a loop does not change the language."""
+    top = _into is None
+    n = NFA(body.name) if top else _into
+    ret_s, cancel_s, unwind_s = _sinks or (RET, CANCEL, UNWIND)
+
+    def node(bi, pos):
+        return (bi, pos) if not _prefix else (_prefix, bi, pos)
+    if top:
+        n.entry = node(0, 0)
+    retval = alpha.retval and top
     for bi, blk in enumerate(body.blocks):
         if blk["c"]:
             continue
         pos = 0
-        cur = (bi, 0)
+        cur = node(bi, 0)
         n.nodes.add(cur)
         # statement events
-        if alpha.retval:
+        if retval:
             for si, st in enumerate(blk["s"]):
                 if st["k"] == "assign" and st["p"] == [0]:
                     lab = retval_label(body, st["r"])
                     if lab:
-                        nxt = (bi, pos + 1)
+                        nxt = node(bi, pos + 1)
                         n.add(cur, lab, nxt, st.get("l"))
                         cur = nxt
                         pos += 1
@@ -131,31 +141,54 @@ def build(body: Body, alpha: Alphabet):
             if b is None:
                 return None
             if body.blocks[b]["c"]:
-                return UNWIND
-            return (b, 0)
+                return unwind_s
+            return node(b, 0)
 
         if k == "call":
             lab = alpha.call_label(t)
             ev = ("call:" + lab) if lab else None
-            if alpha.retval and t["dest"] == [0] and (t.get("callee") or "").endswith("FromResidual::from_residual"):
+            if retval and t["dest"] == [0] and (t.get("callee") or "").endswith("FromResidual::from_residual"):
                 # `?` error branch writes the return place
-                mid = (bi, pos + 1)
+                mid = node(bi, pos + 1)
                 n.add(cur, "retval:residual", mid, loc)
                 cur = mid
                 pos += 1
-            if t["target"] is not None:
+            spliced = False
+            if ev is None and fx is not None and depth > 0 and t["target"] is not None:
+                cal = _local_sync_callee(fx, t)
+                if cal is not None and cal["def"] not in _stack and cal["def"] != body.name:
+                    cb = Body(cal)
+                    if _interesting(cb, alpha):
+                        sub = _prefix + ((body.name, bi),)
+                        build(cb, alpha, fx, depth - 1, sub, (tgt(t["target"]), cancel_s, unwind_s), _stack + (body.name,), n)
+                        n.add(cur, None, (sub, 0, 0), loc)
+                        spliced = True
+            if not spliced and t["target"] is not None:
                 n.add(cur, ev, tgt(t["target"]), loc)
             if t["unwind"] is not None:
-                n.add(cur, "unwind", UNWIND, loc)
+                n.add(cur, "unwind", unwind_s, loc)
         elif k == "switch":
             labels = switch_labels(body, bi, t, alpha)
+            ready = None
+            if fx is not None and depth > 0:
+                ready = _poll_ready(body, t)
             for (val, b) in t["targets"]:
-                n.add(cur, labels.get(val), tgt(b), loc)
+                lab = labels.get(val)
+                if ready is not None and val == ready[0] and lab is None:
+                    co = _awaited_local_coroutine(fx, body, ready[1])
+                    if co is not None and co["def"] not in _stack and co["def"] != body.name:
+                        cb = Body(co)
+                        if _interesting(cb, alpha):
+                            sub = _prefix + ((body.name, bi),)
+                            build(cb, alpha, fx, depth - 1, sub, (tgt(b), cancel_s, unwind_s), _stack + (body.name,), n)
+                            n.add(cur, None, (sub, 0, 0), loc)
+                            continue
+                n.add(cur, lab, tgt(b), loc)
             n.add(cur, labels.get("otherwise"), tgt(t["otherwise"]), loc)
         elif k == "yield":
             n.add(cur, None, tgt(t["resume"]), loc)
             if t["drop"] is not None:
-                n.add(cur, "cancel", CANCEL, loc)
+                n.add(cur, "cancel", cancel_s, loc)
         elif k == "drop":
             dl = None
             if len(t["p"]) == 1 and alpha.drop_types and t["p"][0] not in body.must_moved_at_term().get(bi, set()):
@@ -165,18 +198,82 @@ def build(body: Body, alpha: Alphabet):
                         break
             n.add(cur, dl, tgt(t["target"]), loc)
             if t["unwind"] is not None:
-                n.add(cur, "unwind", UNWIND, loc)
+                n.add(cur, "unwind", unwind_s, loc)
         elif k == "goto":
             n.add(cur, None, tgt(t["target"]), loc)
             if t.get("unwind") is not None:
-                n.add(cur, "unwind", UNWIND, loc)
+                n.add(cur, "unwind", unwind_s, loc)
         elif k == "return":
-            n.add(cur, "ret", RET, loc)
+            n.add(cur, "ret" if top else None, ret_s, loc)
         elif k in ("unreachable", "resume", "terminate", "codrop"):
             pass
         else:
             pass
     return n
+
+
+def _local_sync_callee(fx, t):
+    for key in ("resolved", "callee"):
+        c = t.get(key)
+        f = fx.fns.get(c) if c else None
+        if f is not None and f["kind"] in ("fn", "assoc_fn") and not f.get("is_async") and "pre" in f:
+            return f
+    return None
+
+
+def _poll_ready(body, t):
+    """(value of the Ready edge, poll block) if this SwitchInt is the poll loop of an await"""
+    o = t["o"]
+    if o["k"] not in ("copy", "move"):
+        return None
+    origs = body.origins(o["p"])
+    discr = [x for x in origs if x.kind == "discr"]
+    if not discr or len(discr) != len(origs):
+        return None
+    st = body.blocks[discr[0].site[0]]["s"][discr[0].site[1]]
+    r = st["r"]
+    if r.get("adt") != "core::task::poll::Poll":
+        return None
+    polls = [x for x in body.origins(r["p"]) if x.kind == "poll"]
+    if len(polls) != 1:
+        return None
+    for val, name in r.get("variants", {}).items():
+        if name == "Ready":
+            return (val, polls[0].site[0])
+    return None
+
+
+def _awaited_local_coroutine(fx, body, poll_bb):
+    cands = set()
+    for o in body.polled_future_origins(poll_bb, plumbing=True):
+        if o.kind == "call":
+            ct = body.call_at(o)
+            f = fx.fns.get(ct.get("resolved") or "") or fx.fns.get(ct.get("callee") or "")
+            if f is not None and f.get("is_async"):
+                kids = [c for c in fx.children_of(f["def"]) if c["kind"] == "coroutine"]
+                if len(kids) == 1:
+                    cands.add(kids[0]["def"])
+                    continue
+            return None
+        elif o.kind == "agg":
+            st = body.blocks[o.site[0]]["s"][o.site[1]]
+            if st["r"].get("ak") == "coroutine" and st["r"].get("def") in fx.fns:
+                cands.add(st["r"]["def"])
+                continue
+            return None
+        else:
+            return None
+    if len(cands) == 1:
+        return fx.fns[next(iter(cands))]
+    return None
+
+
+def _interesting(cb, alpha):
+    """does the callee contain call events of the alphabet (directly)?"""
+    cache = alpha.__dict__.setdefault("_int_cache", {})
+    if cb.name not in cache:
+        cache[cb.name] = any(alpha.call_label(t) for _, t in cb.normal_calls())
+    return cache[cb.name]
 
 
 def retval_label(body, r):
